@@ -577,6 +577,18 @@ namespace hv
             return wire<C1<>>(w, b, Int{id.value() * 10 + 3}, Int{0});
         }
     };
+    struct SgCtx
+    {   // the same definition with equal scalars applied to the declared input #0 and to a port imported from the enclosing
+        // context (capture #0): two nodes that differ only in that input
+        static constexpr auto name = "hv_sg_ctx";
+        static SP compose(Wiring &w, SP x, Scalar<"p", Int> p, Scalar<"q", Int> q, Scalar<"id", Int> id)
+        {
+            auto ctx = context::get<TS<Int>>(w, "hvctx");
+            auto a   = wire<C1<>>(w, x, Int{id.value() * 10 + 1}, Int{0});
+            auto b   = wire<C1<>>(w, ctx, Int{id.value() * 10 + 1}, Int{0});
+            return wire<C2<>>(w, a, b, Int{id.value() * 10 + 2}, Int{p.value() % 3});
+        }
+    };
     template <typename G>
     struct Wrap
     {
